@@ -98,7 +98,9 @@ def mc_jobs(ctx):
 
 
 def main(ctx):
-    sizes = {"sim": ctx.pick(6, 120), "depth": ctx.pick(8, 14), "rnd": ctx.pick(10, 150), "steps": ctx.pick(18, 40),
+    # (thorough simulation sizes were 120 behaviours of depth 14; with the tick family in the next-state relation the
+    #  simulator needs about a minute per behaviour, so they are 24 of depth 10 now)
+    sizes = {"sim": ctx.pick(6, 24), "depth": ctx.pick(8, 10), "rnd": ctx.pick(10, 150), "steps": ctx.pick(18, 40),
              "simsplit": ctx.pick(3, 6), "race": ctx.pick(6, 80), "tick": ctx.pick(8, 80)}
     L.main_common(ctx, "C09", mc_jobs(ctx),
                   {"MaxGen": 8, "DeclSet": "{1, 4, 6, 7, 8, 9, 11, 12, 13, 18, 20, 23}" if ctx.quick else "AllDecls",
